@@ -22,7 +22,7 @@ func tAlphabet(sc *tScenario, size string) []string {
 		core_ = []string{"xC2", "xC1", "xC3", "tXV150", "vVC3", "uC1+100", s(60), s(1000), "fee150", "vI0C3", "xD1", "vD1C3"}
 		small = []string{"xC2", "xC1", "tXV150", "vVC3", "uC1+100", "fee150"}
 		more = []string{"tVX150", "uC3+100", "uD1+100", "xD0", s(0), s(2000), "vWC3",
-			"xC2,tXV150", "tXV150,vVC3", "vVC3,tXV150", "xC1,tXV150", "fee150,vI0C3", "vI0C3,fee150", "uC1+100,xC1", "xC3,vVC3", "xD1,fee150",
+			"xC2,tXV150", "tXV150,vVC3", "vVC3,tXV150", "xC1,tXV150", "fee150,vI0C3", "vI0C3,fee150", "uC1+100,xC1", "xC3,vVC3", "xD1,fee150", "xC2,vC2C3", "vC2C3,xC2",
 			"B:uC1+100;vXnc", "B:vVC3;vXnc", "B:xC2;vXnc", "B:xC2;tXV150", "B:fee150;vXnc", "B:vI0C3;fee150"}
 	} else {
 		// second boundary: the elected deputies C1 (income address = itself, votes for itself) and C3
@@ -31,7 +31,7 @@ func tAlphabet(sc *tScenario, size string) []string {
 		core_ = []string{"xC3", "xC1", "xC2", "tXV150", "vVC3", "uC1+100", s(60), s(2000), "fee150", "vC1C3", "vI3C3", "xD0"}
 		small = []string{"xC3", "xC1", "tXV150", "vVC3", "uC1+100", "fee150"}
 		more = []string{"tVX150", "uC3+100", "xD1", s(0), s(400), "vWC3", "vI0C3",
-			"xC3,tXV150", "tXV150,vVC3", "vVC3,tXV150", "xC1,tXV150", "fee150,vI3C3", "vI3C3,fee150", "uC1+100,xC1", "xC2,vVC3", "xC3,fee150",
+			"xC3,tXV150", "tXV150,vVC3", "vVC3,tXV150", "xC1,tXV150", "fee150,vI3C3", "vI3C3,fee150", "uC1+100,xC1", "xC2,vVC3", "xC3,fee150", "xC2,vC2C3", "vC2C3,xC2",
 			"B:uC1+100;vXnc", "B:vVC3;vXnc", "B:xC3;vXnc", "B:xC2;tXV150", "B:fee150;vXnc", "B:vC1C3;fee150"}
 	}
 	switch size {
